@@ -197,6 +197,20 @@ func (h *handler) OnTraffic(c gnet.Conn) gnet.Action {
 			h.mu.Unlock()
 		}
 	}
+	if !ci.udp && h.cfg.proto != "udp" && h.cfg.scenario == "" && h.rnd.Chance(3) {
+		// SendTo is a datagram operation: on a stream connection it is refused and nothing is written
+		// (a byte on the wire would show up in the outbound stream oracle); oracle only
+		h.rec.mu.Lock()
+		h.rec.suppress = true
+		h.rec.mu.Unlock()
+		n, err := c.SendTo([]byte("not-for-streams"), &net.UDPAddr{IP: net.IPv4(127, 0, 0, 1), Port: 9})
+		h.rec.mu.Lock()
+		h.rec.suppress = false
+		h.rec.mu.Unlock()
+		if err == nil || n != 0 {
+			h.rec.Fail("udp-reply", "sendto-on-stream", fmt.Sprintf("SendTo on a stream connection returned (%d, %v)", n, err))
+		}
+	}
 	h.script(ci, "traffic")
 	a := h.pickAction(ci, "traffic")
 	h.op(ci, tr.L("hret", actName(a)))
@@ -278,6 +292,26 @@ func (h *handler) onUDP(c gnet.Conn) gnet.Action {
 		want = trunc(want)
 		if !bytes.Equal(got, want) || c.InboundBuffered() != len(want) {
 			h.rec.Fail("udp-payload", "differs", fmt.Sprintf("datagram from %s: handler sees %d bytes, sender sent %d", src, len(got), len(want)))
+		}
+		if h.rnd.Chance(5) {
+			// an address SendTo cannot convert is refused with an error, never a panic, and nothing is sent
+			h.rec.mu.Lock()
+			h.rec.suppress = true
+			h.rec.mu.Unlock()
+			bad := []net.Addr{&net.UnixAddr{Net: "bogus", Name: "/x"}, &net.UDPAddr{IP: net.IP{1, 2, 3}, Port: 1}, &net.IPAddr{IP: net.IPv4(127, 0, 0, 1)}}
+			var n int
+			var err error
+			ba := bad[h.rnd.Intn(len(bad))]
+			panicked, msg := tr.Guard(func() { n, err = c.SendTo([]byte("x"), ba) })
+			h.rec.mu.Lock()
+			h.rec.suppress = false
+			h.rec.mu.Unlock()
+			if panicked {
+				h.rec.Fail("udp-reply", "sendto-bad-address-panics", msg)
+			} else if err == nil {
+				_ = n
+				h.rec.Fail("udp-reply", "sendto-bad-address-accepted", fmt.Sprintf("SendTo with an address it cannot convert (%T %v) returned no error", ba, ba))
+			}
 		}
 		if h.rnd.Chance(20) {
 			// SendTo an explicit address (the sender's, in 16-byte IP form); not part of the model: oracle only
